@@ -54,6 +54,13 @@ def curated():
         "t4": T(next=[dict(do=["t5", "t6"])]),
         "t5": T(next=[dict(do=["t7"])]), "t6": T(next=[dict(do=["t7"])]), "t7": T(join=-1)},
         fates={"t5": A}))
+    # two roots feed a multiply-referenced task (a split: one route per root) followed by a fork and a join
+    out.append(D.wf("two_roots_split_join", {
+        "p1": T(next=[dict(do=["s"])]), "p2": T(next=[dict(do=["s"])]),
+        "s": T(next=[dict(do=["a", "b"])]),
+        "a": T(next=[dict(do=["j"])]), "b": T(next=[dict(do=["j"])]),
+        "j": T(join=-1, next=[dict(do=["z"])]), "z": T()},
+        fates={"z": A}))
     out.append(D.wf("on_complete", {
         "t1": T(next=[dict(when="completed", pub=[["x", "c:1"]], do=["t2"])]), "t2": T()},
         vars=[["x", 0]], output=[["o", "ctx:x"]], fates={"t1": A, "t2": A}))
@@ -342,6 +349,15 @@ def curated_ctx():
         "t2": T(next=[dict(when="succeeded", do=["t3"])]),
         "t3": T(join=-1, next=[dict(pub=[["b", "ctx:a"]], do=["t4"])]),
         "t4": T()}, vars=[["a", 0], ["b", 0]], output=[["oa", "ctx:a"], ["ob", "ctx:b"]]))
+    # a branch publishes different variables at two levels before the join; the other branch publishes a third
+    out.append(D.wf("join_two_level_pubs", {
+        "a1": T(next=[dict(when="succeeded", pub=[["p", "c:1"]], do=["a2"])]),
+        "a2": T(next=[dict(when="succeeded", pub=[["q", "c:2"]], do=["j"])]),
+        "b1": T(next=[dict(when="succeeded", do=["b2"])]),
+        "b2": T(next=[dict(when="succeeded", pub=[["s", "c:3"]], do=["j"])]),
+        "j": T(join=-1, next=[dict(pub=[["tp", "ctx:p"], ["tq", "ctx:q"], ["ts", "ctx:s"]], do=["z"])]),
+        "z": T()}, vars=[["p", 0], ["q", 0], ["s", 0], ["tp", 0], ["tq", 0], ["ts", 0]],
+        output=[["op", "ctx:tp"], ["oq", "ctx:tq"], ["os", "ctx:ts"]]))
     out.append(D.wf("independent_join", {
         "t1": T(next=[dict(do=["t2", "t3"])]),
         "t2": T(next=[dict(pub=[["a", "res"]], do=["t4"])]),
@@ -422,6 +438,35 @@ def curated_delay():
     return out
 
 
+def rerun_prefixes(d, fail_task):
+    """For a definition: the eager history in which everything succeeds except `fail_task` (its first execution
+    fails), followed by one rerun request - one prefix per execution that exists at that point, whatever its
+    status.  The exploration then continues from there (lazily: re-offered tasks wait while others report)."""
+    from . import explore as X
+    r = X.Real(d)
+    hist = [["boot"]]
+    X.apply_choice(r, ["boot"], False)
+    failed = False
+    for _ in range(60):
+        chs = r.report_choices()
+        if not chs:
+            break
+        pick = None
+        for c in chs:
+            want = "failed" if (c[0] == fail_task and not failed) else "succeeded"
+            if c[3] == want:
+                pick = c
+                break
+        pick = pick or chs[0]
+        failed = failed or (pick[0] == fail_task and pick[3] == "failed")
+        X.apply_choice(r, ["rep"] + pick, False)
+        hist.append(["rep"] + pick)
+    if r.c.get_workflow_status() not in ("failed", "succeeded"):
+        return []
+    recs = sorted({(e["id"], e["route"]) for e in r.c.workflow_state.sequence if e["id"] in d["tasks"]})
+    return [[["eager", h] for h in hist[1:]] + [["rerun", [[t, rt, 0]]]] for t, rt in recs]
+
+
 def multi_ref_family():
     """Definitions inspection must reject with SEVERAL entries for one variable: different expressions in
     one mapping (task input), in one publish list and in vars refer to a name nothing assigns.  The order
@@ -435,6 +480,19 @@ def multi_ref_family():
     t1 = T(next=[dict(when="succeeded", pub=[["y", "ctx:zz"], ["w", "inc:zz"]], do=["t2"])])
     out.append(D.wf("multi_ref_publish", {"t1": t1, "t2": T()}, vars=[["x", 0], ["u", "ctx:zz"], ["v", "inc:zz"]],
                     output=[["ox", "ctx:zz"], ["oy", "inc:zz"]]))
+    return out
+
+
+def inspect_order_family():
+    """Definitions whose inspection report has several entries of one kind at one position: the order of the
+    entries must not depend on the interpreter (C19).  They cannot be conducted; they are only inspected."""
+    out = []
+    t1 = T(next=[dict(when="succeeded", do=["zz_d", "zz_a", "zz_c", "zz_b", "zz_e"]), dict(when="failed", do=["zz_g", "zz_f", "t2"])])
+    out.append(D.wf("undefined_many", {"t1": t1, "t2": T(next=[dict(do=["zz_h", "zz_i", "zz_j"])])}))
+    t1 = T(next=[dict(when="succeeded", pub=[["y", "ctx:zz"], ["w", "inc:qq"]], do=["zz_b", "zz_a", "t2"])])
+    t1["inputxx"] = ["ctx:zz", "inc:qq", "ctx:rr", "inc:zz"]
+    out.append(D.wf("mixed_many", {"t1": t1, "t2": T(), "noop": T(), "fail": T()}, vars=[["v", "ctx:uu"], ["u", "inc:vv"]],
+                    output=[["o1", "ctx:o_a"], ["o2", "inc:o_b"]]))
     return out
 
 
